@@ -6,10 +6,15 @@ list, a Success line carrying the MIR exactly when the program compiled and a Fa
 the reason otherwise; the file entry point and the base64 entry point yield the same result for
 the same program text; the compile model is a function of the trace (no set or hash order can
 enter: every list of the MIR is built by list operations of the model).
+The compile timers as a state machine (`Runtime/Timer.lean`, session 6): after any history of compilations — successful,
+failing while the program is loaded, inside `nada_main`, in the middle of the outputs — no timer is left
+running, a later compilation never ends with a `TimerError`, and a program that fails nowhere compiles; the
+recorded `start` / `stop` calls of real histories are replayed through the model on every run (K12).
 Not provable here and exercised on every run by fresh-process executions (K9): hash-seed
-independence of the real process, the import system, stdout, the timers.
+independence of the real process, the import system, stdout.
 -/
 import NadaVerif.Runtime.Cli
+import NadaVerif.Lemmas.Timer
 import NadaVerif.Compile
 
 namespace NadaVerif.C13
@@ -53,5 +58,31 @@ theorem runCmds_append (m : Mach) (cs₁ cs₂ : List Cmd) :
   | cons c cs ih => simp only [List.cons_append, runCmds]; exact ih _
 
 example : cliMain ["compile.py", "prog.py"] (fun _ => .ok "{}") (fun _ => .error "x") = [.success "{}"] := by decide
+
+/-- **No timer survives a compilation.**  After any history of compilations in one process — through either entry point,
+each succeeding or failing at any of its stages — the set of running timers is empty again. -/
+theorem timers_balanced_after_history (h : List (Bool × Prog)) : (runHistory {} h).2.running = [] :=
+  runHistory_running h {}
+
+/-- … so a compilation that follows any history never ends with a `TimerError`, … -/
+theorem no_timer_error_after_history (h : List (Bool × Prog)) (v : Bool) (p : Prog) :
+    ((compileVia v p).run.run (runHistory {} h).2).1 ≠ .error .timer :=
+  note_compileVia v p _ (by intro n _; rw [timers_balanced_after_history]; simp)
+
+/-- … and a program that fails nowhere compiles with the timers enabled whatever was compiled before it. -/
+theorem good_program_compiles_after_history (h : List (Bool × Prog)) (v : Bool) (p : Prog) (hg : p.good) :
+    ((compileVia v p).run.run (runHistory {} h).2).1 = .ok () :=
+  okOn_compileVia v p hg _ (by intro n _; rw [timers_balanced_after_history]; simp)
+
+/-- Non-vacuity: a history with a program failing while it is loaded, one failing in its second output, one failing in
+`nada_main`, then a good program with two outputs of one name. -/
+example : (runHistory {} [(false, { importFails := true }), (true, { outputs := [("a", false), ("b", true), ("c", false)] }),
+    (false, { mainFails := true }), (false, { outputs := [("o", false), ("o", false)] })]).1.map TErr.code =
+    [2, 2, 2, 0] := by decide +kernel
+
+/-- Sensitivity: without the `finally` around the import, a program that fails while it is loaded leaves its timer
+running and the next compilation of a correct program ends with a `TimerError`. -/
+example : TErr.code ((tCompileScriptNoFinally {}).run.run ((tCompileScriptNoFinally { importFails := true }).run.run {}).2).1 = 1 := by
+  decide +kernel
 
 end NadaVerif.C13
